@@ -129,65 +129,7 @@ func runC13(c *Ctx, r *Report, tier string) {
 	r.Check(len(direct) == 0, "FUNNEL", in_, "no conversion outside Set", c.pos(ip.Pos()), "parse never converts or stores a value itself", "parse calls "+strings.Join(direct, ", "))
 
 	// PRIORITY
-	var cl *ssa.Function
-	for _, s := range c.instrs(obn, c.isCallTo("(*Group).eachGroup")) {
-		for _, f := range closureArgs(s.(ssa.CallInstruction)) {
-			cl = f
-		}
-	}
-	if cl == nil {
-		r.Fail("PRIORITY", c.fname(obn), "matching closure", "", "optionByName does not iterate eachGroup with a closure")
-	} else {
-		cn := c.fname(cl)
-		opt := "idx(Group.options(P0), (phi{(phi↺ + 1) | -1} + 1))"
-		tests := map[int64][]LitMatch{
-			4: {litIs("dyncall(P2; "+opt+", P1)", true), litIs("nonnil(P2)", true)},
-			3: {litIs("eq(P1, StructField.Name(&Option.field("+opt+")))", true)},
-			2: {litIs("eq(P1, call:(*Option).LongNameWithNamespace("+opt+"))", true)},
-			1: {litIs("eq(P1, conv[string](Option.ShortName("+opt+")))", true), litIs("nonzero(Option.ShortName("+opt+"))", true)},
-		}
-		names := map[int64]string{4: "matcher (ini-name)", 3: "field name", 2: "namespaced long name", 1: "short name"}
-		seenK := map[int64]bool{}
-		for _, b := range c.blocks(cl) {
-			for _, in := range b.Instrs {
-				st, ok := in.(*ssa.Store)
-				if !ok {
-					continue
-				}
-				k, isC := constInt(st.Val)
-				if !isC {
-					continue
-				}
-				if _, isFV := st.Addr.(*ssa.FreeVar); !isFV {
-					continue
-				}
-				seenK[k] = true
-				ms, known := tests[k]
-				if !known {
-					r.Fail("PRIORITY", cn, fmt.Sprintf("priority %d", k), c.ipos(st), "undocumented priority constant")
-					continue
-				}
-				okT := true
-				for _, m := range ms {
-					if _, ok := c.Requires(cl, isInstr(st), m, nil); !ok {
-						okT = false
-					}
-				}
-				_, okG := c.Requires(cl, isInstr(st), litIs(fmt.Sprintf("lt(cell:int, %d)", k), true), nil)
-				// the option stored alongside
-				okO := false
-				for _, in2 := range b.Instrs {
-					if s2, ok := in2.(*ssa.Store); ok && s2 != st {
-						if _, isFV := s2.Addr.(*ssa.FreeVar); isFV && c.term(s2.Val) == opt {
-							okO = true
-						}
-					}
-				}
-				r.Check(okT && okG && okO, "PRIORITY", cn, fmt.Sprintf("priority %d ← %s", k, names[k]), c.ipos(st), fmt.Sprintf("REQ(name test) ∧ REQ(prio < %d); the matched option is recorded", k), fmt.Sprintf("name-test necessary=%v, `prio < %d` necessary=%v, option recorded=%v", okT, k, okG, okO))
-			}
-		}
-		r.Check(len(seenK) == 4, "PRIORITY", cn, "four priorities", c.pos(cl.Pos()), "4, 3, 2, 1", fmt.Sprintf("%d priorities assigned", len(seenK)))
-	}
+	c.priorityRules(r, "PRIORITY", obn)
 	// the matcher passed by parse
 	for _, s := range c.instrs(ip, c.isCallTo("(*Group).optionByName")) {
 		call := s.(*ssa.Call)
@@ -268,8 +210,61 @@ func runC13(c *Ctx, r *Report, tier string) {
 			lower = true
 		}
 	}
+	// every group of the tree is a candidate: the match is guarded by nothing but `not the receiver` and the description test
+	for _, s := range c.instrs(gf, c.isCallTo("(*Group).eachGroup")) {
+		for _, f := range closureArgs(s.(ssa.CallInstruction)) {
+			for _, b := range c.blocks(f) {
+				for _, in := range b.Instrs {
+					st, ok := in.(*ssa.Store)
+					if !ok {
+						continue
+					}
+					if _, isFV := st.Addr.(*ssa.FreeVar); !isFV {
+						continue
+					}
+					var extra []string
+					for _, d := range c.controlDeps(f, b) {
+						l, ok := c.edgeLit(d.B, d.Succ)
+						if !ok {
+							continue
+						}
+						switch {
+						case strings.HasPrefix(l.Term, "eq(") && strings.Contains(l.Term, "call:strings.ToLower(Group.ShortDescription(P0))") && l.Pos:
+						case strings.HasPrefix(l.Term, "eq(") && strings.Contains(l.Term, "P0") && !strings.Contains(l.Term, "call:") && !l.Pos: // gg != g
+						default:
+							extra = append(extra, l.String())
+						}
+					}
+					r.Check(len(extra) == 0, "SECTION", c.fname(f), "every group of the tree can be addressed by its description", c.ipos(st), "the match depends only on `not the receiver` and the description comparison", "a group is found only under the additional condition "+strings.Join(extra, "; ")+": sections naming other groups are rejected")
+				}
+			}
+		}
+	}
 	r.Check(okFind && lower, "SECTION", c.fname(gf), "group description matched case-insensitively", c.pos(gf.Pos()), "ToLower(description) == ToLower(name)", "Group.Find does not lower-case both sides")
 
+	// a repeated section header continues the existing section: a name enters ini.order (and gets a fresh
+	// section) only when the lookup of that name is nil — not when the section merely has no entries yet
+	if ri := c.Fn("readIni"); ri != nil {
+		ordF := c.Field("ini", "order")
+		nOrd := 0
+		for _, s := range c.storesTo(ordF) {
+			if s.Fn != ri && !c.actsFor(s.Fn, ri) {
+				continue
+			}
+			if !strings.HasPrefix(c.term(s.Store.Val), "append(") {
+				continue
+			}
+			if innermost(c.loopsDeep(ri), s.Store.Block()) == nil && s.Fn == ri {
+				continue // the initial (global) section, entered once before the read loop
+			}
+			nOrd++
+			_, req := c.Requires(ri, isInstr(s.Store), func(l Lit) bool {
+				return !l.Pos && strings.HasPrefix(l.Term, "nonnil(lookup(ini.Sections(")
+			}, nil)
+			r.Check(req, "ACCUMULATE", c.fname(ri), "a section name is ordered once", c.ipos(s.Store), "ini.order = append(…, name) REQ(Sections[name] == nil)", "a section that is reopened can be entered in the section order again: its entries are then applied twice")
+		}
+		r.Check(nOrd == 1, "ACCUMULATE", c.fname(ri), "section order writer", c.pos(ri.Pos()), "one append", fmt.Sprintf("%d", nOrd))
+	}
 	// NOINI: every path that hands a value to an option passes the edge "its no-ini tag is empty"
 	noIniEmpty := func(l Lit) bool {
 		return !l.Pos && strings.HasPrefix(l.Term, "nonempty(call:(*multiTag).Get(&Option.tag(") && strings.HasSuffix(l.Term, `"no-ini"))`)
@@ -308,4 +303,67 @@ func runC13(c *Ctx, r *Report, tier string) {
 		}
 	}
 	r.Check(nLC == 0, "ACCUMULATE", in_, "no loop-carried inhibition", c.pos(ip.Pos()), "no branch inside the entry loops reads Option.preventDefault", "a branch inside the loops reads the flag the loop body stores: later entries of one option are dropped in as-defaults mode")
+}
+
+// priorityRules: the name-resolution priorities of Group.optionByName (shared by C12 and C13).
+func (c *Ctx) priorityRules(r *Report, rule string, obn *ssa.Function) {
+	var cl *ssa.Function
+	for _, s := range c.instrs(obn, c.isCallTo("(*Group).eachGroup")) {
+		for _, f := range closureArgs(s.(ssa.CallInstruction)) {
+			cl = f
+		}
+	}
+	if cl == nil {
+		r.Fail(rule, c.fname(obn), "matching closure", "", "optionByName does not iterate eachGroup with a closure")
+	} else {
+		cn := c.fname(cl)
+		opt := "idx(Group.options(P0), (phi{(phi↺ + 1) | -1} + 1))"
+		tests := map[int64][]LitMatch{
+			4: {litIs("dyncall(P2; "+opt+", P1)", true), litIs("nonnil(P2)", true)},
+			3: {litIs("eq(P1, StructField.Name(&Option.field("+opt+")))", true)},
+			2: {litIs("eq(P1, call:(*Option).LongNameWithNamespace("+opt+"))", true)},
+			1: {litIs("eq(P1, conv[string](Option.ShortName("+opt+")))", true), litIs("nonzero(Option.ShortName("+opt+"))", true)},
+		}
+		names := map[int64]string{4: "matcher (ini-name)", 3: "field name", 2: "namespaced long name", 1: "short name"}
+		seenK := map[int64]bool{}
+		for _, b := range c.blocks(cl) {
+			for _, in := range b.Instrs {
+				st, ok := in.(*ssa.Store)
+				if !ok {
+					continue
+				}
+				k, isC := constInt(st.Val)
+				if !isC {
+					continue
+				}
+				if _, isFV := st.Addr.(*ssa.FreeVar); !isFV {
+					continue
+				}
+				seenK[k] = true
+				ms, known := tests[k]
+				if !known {
+					r.Fail(rule, cn, fmt.Sprintf("priority %d", k), c.ipos(st), "undocumented priority constant")
+					continue
+				}
+				okT := true
+				for _, m := range ms {
+					if _, ok := c.Requires(cl, isInstr(st), m, nil); !ok {
+						okT = false
+					}
+				}
+				_, okG := c.Requires(cl, isInstr(st), litIs(fmt.Sprintf("lt(cell:int, %d)", k), true), nil)
+				// the option stored alongside
+				okO := false
+				for _, in2 := range b.Instrs {
+					if s2, ok := in2.(*ssa.Store); ok && s2 != st {
+						if _, isFV := s2.Addr.(*ssa.FreeVar); isFV && c.term(s2.Val) == opt {
+							okO = true
+						}
+					}
+				}
+				r.Check(okT && okG && okO, rule, cn, fmt.Sprintf("priority %d ← %s", k, names[k]), c.ipos(st), fmt.Sprintf("REQ(name test) ∧ REQ(prio < %d); the matched option is recorded", k), fmt.Sprintf("name-test necessary=%v, `prio < %d` necessary=%v, option recorded=%v", okT, k, okG, okO))
+			}
+		}
+		r.Check(len(seenK) == 4, rule, cn, "four priorities", c.pos(cl.Pos()), "4, 3, 2, 1", fmt.Sprintf("%d priorities assigned", len(seenK)))
+	}
 }
